@@ -22,6 +22,13 @@ class Unmodelled(AnalysisBroken):
     pass
 
 
+class UnsafeAccess(Unmodelled):
+    """a memory-unsafe access on a path described by exact constraints over the inputs (a feasible execution), to an object whose size is the library's own (a global /
+    local of the library) or the documented size of a public function's argument. Rules that know the context report it themselves; props.run reports any other as MEM-1."""
+    def __init__(self, msg, where, detail):
+        Unmodelled.__init__(self, msg); self.where = where; self.detail = detail
+
+
 def T(deps=0):
     return ('T', deps)
 
@@ -378,6 +385,9 @@ class Interp:
         if obj.startswith('g:') and obj not in st.mem.objs:
             self.global_obj(st, obj[2:])
         if obj not in st.mem.objs:
+            if obj.startswith('a:') and not st.cons.opaque:
+                raise UnsafeAccess('%s through a pointer to local %s after its function returned, at %s' % (kind, obj.split(':')[2] + ' of ' + obj.split(':')[1], inst.loc), inst.loc,
+                                   {'access': kind, 'dead_local': obj, 'entry': getattr(self, 'entry', None)})
             raise Unmodelled('access to unknown object %s at %s' % (obj, inst.loc))
         size = len(st.mem.objs[obj])
         ok = 0 <= off and off + n <= size
@@ -386,7 +396,11 @@ class Interp:
         if not ok:
             st.events.append(('out-of-bounds', inst.loc, obj, off, n, size))
             self.oob.append((inst.loc, kind, obj, off, n, size, not st.cons.opaque))
-            raise Unmodelled('out-of-bounds %s of %d bytes at offset %d of %s (size %d) at %s' % (kind, n, off, obj, size, inst.loc))
+            msg = 'out-of-bounds %s of %d bytes at offset %d of %s (size %d) at %s' % (kind, n, off, obj, size, inst.loc)
+            from .ir import PUBLIC_API
+            if not st.cons.opaque and (obj.startswith('g:') or obj.startswith('a:') or getattr(self, 'entry', None) in PUBLIC_API or obj in getattr(self, 'contract', ())):
+                raise UnsafeAccess(msg, inst.loc, {'access': kind, 'object': obj, 'offset': off, 'bytes': n, 'object_size': size, 'entry': getattr(self, 'entry', None)})
+            raise Unmodelled(msg)
         return obj, off
 
     def load(self, st, ptr, nbytes, inst, as_ptr=False):
@@ -574,6 +588,10 @@ class Interp:
                     a, b = a.off, b.off
                 else:
                     if pred in ('eq', 'ne'): return BV([1 if pred == 'ne' else 0])
+                    if not st.cons.opaque and all(o_.startswith('g:') or o_.startswith('a:') for o_ in (a.obj, b.obj)):
+                        # two objects of the library itself: the relational comparison is undefined (C11 6.5.8p5) and its outcome is link-order dependent
+                        raise UnsafeAccess('relational comparison (%s) of pointers to the different objects %s and %s at %s' % (pred, a.obj[2:], b.obj[2:], inst.loc), inst.loc,
+                                           {'access': 'pointer ' + pred, 'objects': [a.obj, b.obj], 'entry': getattr(self, 'entry', None)})
                     raise Unmodelled('ordering of pointers to different objects at %s' % inst.loc)
             else:
                 other = b if isinstance(a, Ptr) else a
@@ -676,6 +694,7 @@ class Interp:
     # ---------- execution
     def run(self, fname, args, st):
         f = self.P.fn(fname) if isinstance(fname, str) else fname
+        self.entry = base_name(f.name)
         return self.run_function(f, args, st, 0)
 
     def run_function(self, f, args, st, depth):
